@@ -11,7 +11,7 @@
 //   -o     stack pointer page offset adjustment for blocked threads (bytes, multiple of 8)
 //   -S     stack size of created threads (private mmap), default 128 KiB
 //   -r     pattern region of len bytes whose last byte is followed by: u unmapped page, n PROT_NONE
-//          page, r another readable page.  Fill: byte at address a is (a * 167 + 13) & 0xff
+//          page, r another readable page.  Fill: byte at address a is (a * 167 + 13) & 0xff, except that every fifth 16-byte block ((a / 16) % 5 == 3) is all 0xff
 //   -m     mmap a file (prot: r, rx, rw, n) at file offset off
 //   -F     open N extra descriptors
 //   -d     synthetic linker data: PHDR array -> PT_DYNAMIC -> DT_DEBUG -> r_debug -> N link_maps
@@ -262,7 +262,11 @@ int main(int argc, char **argv) {
         munmap(m0, page);
         uint8_t *m = m0 + page;
         uint8_t *start = m + plen - len;     // region ends exactly at the end of the pattern pages
-        for (uint64_t k = 0; k < plen; k++) m[k] = (uint8_t)(((uint64_t)(uintptr_t)(m + k) * 167 + 13) & 0xff);
+        for (uint64_t k = 0; k < plen; k++) {
+            // (every fifth 16-byte block is all ones: a word of all ones is a value, not a failed read)
+            uint64_t a = (uint64_t)(uintptr_t)(m + k);
+            m[k] = ((a / 16) % 5 == 3) ? 0xff : (uint8_t)((a * 167 + 13) & 0xff);
+        }
         if (kind == 'u') munmap(m + plen, page);
         else if (kind == 'n') mprotect(m + plen, page, PROT_NONE);
         else memset(m + plen, 0x5a, page);
